@@ -298,6 +298,10 @@ def proj_link(log):
             out.append({"e": "gone", "r": e["r"]})
         elif k == "closed":
             out.append({"e": "closed", "r": e["r"]})
+            if e.get("reason") in ("RemoteTimedOut", "ChannelClosed") or str(e.get("reason", "")).startswith("DuplicateRegistration"):
+                # the runtime has dropped this remote (pruned after being idle without links, its channel
+                # failed, or its id was registered again): nothing further is owed to it
+                out.append({"e": "gone", "r": e["r"]})
         elif k == "quiescent":
             out.append({"e": "quiescent", "drained": e["drained"]})
         elif k == "stopped":
